@@ -323,7 +323,7 @@ def rand_node_id(rng, gs, next_node, top_only=0.6):
     if r < top_only and top: return rng.choice(top)
     if r < top_only + 0.12 and older: return rng.choice(older)                   # stale for the top graph
     if r < top_only + 0.2: return next_node + rng.randrange(0, 3)                # never issued
-    if r < top_only + 0.3: return rng.choice([0, -1, -2, 2147483647, -2147483648, 1])
+    if r < top_only + 0.3: return rng.choice([0, -1, -2, 2147483647, -2147483648, 1] + ([-rng.choice(top)] if top else []) * 3)
     return rand_small_int(rng, 4)
 
 
